@@ -6,6 +6,7 @@ import os
 import common
 import propeng
 import sexp
+import ssacanon
 
 
 def key(v):
@@ -175,6 +176,7 @@ def run(ctx, proofs):
     progs = propeng.programs(ctx.rng, n, ("C14", "C10", "C06"))
     impl = propeng.lift_all(H, progs, [("0", "0")])
     lines, keys = [], []
+    mlines, mkeys = [], []
     status = {}
     failing, shapes = [], set()
     paths = 0
@@ -183,9 +185,15 @@ def run(ctx, proofs):
         status[tag] = status.get(tag, 0) + 1
         if tag == "panic":
             failing.append({"input": progs[i][1], "impl": o[:200], "spec": "SSA conversion completes or reports an error"})
+        if tag == "ssaerr":
+            x = sexp.parse(o)
+            mlines.append("ssa %s %s" % (sexp.show(x[1]), sexp.show(x[2])))
+            mkeys.append((i, None))
         if tag != "ok":
             continue
         x = sexp.parse(o)
+        mlines.append("ssa %s %s" % (sexp.show(x[1]), sexp.show(x[4])))
+        mkeys.append((i, x[2]))
         lines.append("ssacheck %s %s" % (sexp.show(x[2]), sexp.show(x[3])))
         keys.append(i)
         probs = static_checks(x[2])
@@ -200,6 +208,18 @@ def run(ctx, proofs):
             failing.append({"input": progs[i][1], "impl": "SSA graph: " + sexp.show(x[2])[:1500], "spec": probs[0], "all": probs[:5]})
     outs = common.run_lines(M, [], lines, shards=common.NPROC, timeout=1200) if lines else []
     invalid = [progs[i][1] for i, o in zip(keys, outs) if o != "(valid)"]
+    # the construction mirror Model.Ssa.into_ssa vs the implementation, modulo hash-order effects
+    mouts = common.run_lines(M, [], mlines, shards=common.NPROC, timeout=1200) if mlines else []
+    disagreements = []
+    for (i, real), o in zip(mkeys, mouts):
+        if real is None:
+            if o != "(ssaerr)":
+                disagreements.append({"input": progs[i][1], "impl": "(ssaerr)", "model": o[:200]})
+        elif not o.startswith("(cfg"):
+            disagreements.append({"input": progs[i][1], "impl": "converts", "model": o[:200]})
+        elif ssacanon.canon(sexp.strip_knowledge(real)) != ssacanon.canon(sexp.parse(o)):
+            disagreements.append({"input": progs[i][1], "impl": sexp.show(ssacanon.canon(sexp.strip_knowledge(real)))[:600],
+                                  "model": sexp.show(ssacanon.canon(sexp.parse(o)))[:600]})
     for f in failing[:5]:
         ctx.violation("SSA form violates C14: " + f["spec"], f)
     if not failing:
@@ -207,6 +227,10 @@ def run(ctx, proofs):
             ctx.violation("the verified validator SsaCheck.ssa_check rejects the implementation's SSA graph (%d definitions); the path walk "
                           "found no disagreeing read" % len(invalid),
                           {"broken": "validation of the implementation's SSA output by SsaCheck.ssa_check", "first": invalid[0]}, no_input=True)
+        elif disagreements:
+            ctx.violation("correspondence Model.Ssa.into_ssa vs Cfg::into_ssa broken (%d definitions); the SSA graphs themselves passed the "
+                          "validator and the path walk" % len(disagreements),
+                          {"broken": "correspondence ssa (Model.Ssa.into_ssa)", "first": disagreements[0]}, no_input=True)
         elif proofs["failures"]:
             ctx.violation("proof obligations of C14 no longer check: " + "; ".join(proofs["failures"])[:400],
                           {"broken": "props/C14.v", "failures": proofs["failures"]}, no_input=True)
@@ -217,13 +241,16 @@ def run(ctx, proofs):
         "rule": "seeded generator lib/proggen.py (shadowed names, arrays updated element-wise, variables assigned in one branch only, nested loops, "
                 "reassigned parameters) + corpus; every SSA graph produced by the real into_ssa is (a) validated by the Coq-verified "
                 "SsaCheck.ssa_check with the implementation's dominator tree as certificate, (b) walked by an independent Python path oracle "
-                "(each block at most 3 times per path), (c) compared with the pre-SSA graph by erasure; distinct-nontrivial = distinct "
+                "(each block at most 3 times per path), (c) compared with the pre-SSA graph by erasure, (d) compared, after canonical renumbering, with "
+                "the output of the construction mirror Model.Ssa.into_ssa run on the real pre-SSA graph and the real dominance frontiers/tree; distinct-nontrivial = distinct "
                 "(blocks, phi statements, declared versions) shapes among converted graphs",
         "samples": [progs[0][1], progs[len(progs) // 2][1]],
         "exhaustive": False,
         "implementation_status": status,
         "graphs_validated": len(outs),
         "graphs_rejected_by_validator": len(invalid),
+        "construction_mirror_compared": len(mouts),
+        "construction_mirror_disagreements": len(disagreements),
         "paths_walked_by_oracle": paths,
         "open_statements": ["ssa_construction_valid_full: `for every CFG, into_ssa yields a graph accepted by ssa_check` (Cytron et al.'s theorem for this "
                             "renaming scheme) is established per explored definition by running the verified validator, not for all graphs"],
